@@ -112,7 +112,7 @@ STMTS = ['global a', 'nonlocal a', 'a = 1', 'a: int', 'a += 1', 'del a', 'return
          'def g[T](a: T): pass', 'break', 'continue', 'pass', 'a = yield', 'print(a)', 'lambda: a',
          'class D: a = 1', 'a = [a for a in a]', 'async with a: pass', 'raise', 'x = (yield)',
          'from __future__ import annotations', 'a = f"{a!r:{a}}"', 'assert a', '*a, b = c', 'a = *b, c',
-         'type X = int', 'match a:\n    case [b, *c]: pass', 'while a: break', 'for a in b: continue']
+         'a = f"yield"', 'type X = int', 'match a:\n    case [b, *c]: pass', 'while a: break', 'for a in b: continue']
 HEADERS = [None, 'def f(a):', 'async def f():', 'class C:', 'def f():\n    def g():', 'for q in r:']
 
 
